@@ -32,6 +32,8 @@ class ExecResolve(ExecCall):
         if c is None:
             c = self.find_contract(recv.cls, name)
         if c is not None:
+            if c.dispatch is not None:
+                c = api.CONTRACTS[c.dispatch(args, kwargs)]
             yield from self.apply_contract(st, c, recv, args, kwargs, m)
             return
         if m is None:
@@ -68,6 +70,8 @@ class ExecResolve(ExecCall):
         short = qual.split(".")[-2] + "." + qual.split(".")[-1]
         c = api.CONTRACTS.get(short) or api.CONTRACTS.get(qual.split(".")[-1])
         if c is not None:
+            if c.dispatch is not None:
+                c = api.CONTRACTS[c.dispatch(args, kwargs)]
             yield from self.apply_contract(st, c, None, args, kwargs, rec)
             return
         yield from self.inline(st, rec, None, None, args, kwargs)
